@@ -1,52 +1,42 @@
 (* C18  Connection-ID lifecycle honours the peer's instructions.
-   Only statements here; proofs live in coq/proofs/CidP.v, the model in coq/model/Cid.v.
+   Only statements here; proofs live in coq/proofs/CidP.v, the model in coq/model/Cid.v (the tree WITH the three
+   C18 fixes, docs/C18.md F1-F3).
 
-   [reach c l s x] (proofs/CidP.v): s is reachable from a fresh connection of role c (true = client) whose
-   handshake completed with the peer advertising active_connection_id_limit = l, by ANY sequence of: 1-RTT packets
-   addressed to any host ID carrying NEW_CONNECTION_ID (any sequence number, retire_prior_to, length; duplicates,
-   reordering) / RETIRE_CONNECTION_ID (any sequence number) frames, local change_connection_id(), peer DCID
-   switches, datagrams_to_send, and delivery outcomes ACKED / LOST of the frames written (a RETIRE outcome only for
-   a frame really outstanding -- premise from C08).  x = an IndexError escaped receive_datagram on the way. *)
+   [reach c l s] (proofs/CidP.v): s is reachable from a fresh connection of role c (true = client) whose handshake
+   completed with the peer advertising active_connection_id_limit = l, by ANY sequence of: 1-RTT packets addressed
+   to any host ID carrying NEW_CONNECTION_ID (any sequence number, retire_prior_to, length; duplicates, reordering) /
+   RETIRE_CONNECTION_ID (any sequence number) frames, local change_connection_id(), peer DCID switches,
+   datagrams_to_send, and delivery outcomes ACKED / LOST of the frames written (a RETIRE outcome only for a frame
+   really outstanding -- premise from C08).  The outcome type of the model has no "exception escaped" case: every
+   operation returns Ok, a connection error (close), Drop or Ignored -- the tie checks that against the code. *)
 From AQ Require Import lib.Base gen.C18Consts model.Cid proofs.CidP.
 
-(* dcid_not_retired.  As long as no IndexError escaped: the current destination ID and every spare one are at or
-   above the largest retire_prior_to processed, so the next packet written is addressed to such an ID. *)
-Theorem dcid_not_retired : forall c l s, reach c l s false ->
+(* dcid_not_retired: unless the connection is closing, the current destination ID and every spare one are at or
+   above the largest retire_prior_to processed, so the next packet written is addressed to such an ID ... *)
+Theorem dcid_not_retired : forall c l s, reach c l s -> closed s = None ->
   rpt s <= cur s /\ Forall (fun q => rpt s <= q) (avail s) /\ rpt s <= fst (fst (fst (send s))).
 Proof. exact dcid_not_retired_l. Qed.
 Print Assumptions dcid_not_retired.
 
-(* ... `_consume_peer_cid` pops an empty list EXACTLY when a well-formed NEW_CONNECTION_ID(q, r) has r above the
-   current and every spare sequence number while q was seen before ... *)
-Theorem consume_empty_iff_thm : forall c l s q r n, reach c l s false ->
-  (fst (recv_newcid s q r n) = OExnIndex <->
-   (closed s = None /\ pkt s <> None /\ (n =? 0) || (n >? CONNECTION_ID_MAX_SIZE) = false /\ r <= q /\
-    cur s < r /\ (forall a, In a (avail s) -> a < r) /\ In q (seen s))).
-Proof. exact consume_empty_iff. Qed.
-Print Assumptions consume_empty_iff_thm.
+(* ... in particular right after a NEW_CONNECTION_ID(q, r) that was accepted: r is in force and honoured. *)
+Theorem newcid_accepted_dcid : forall c l s q r n, reach c l s -> fst (recv_newcid s q r n) = OOk ->
+  let s' := snd (recv_newcid s q r n) in r <= rpt s' /\ rpt s' <= cur s' /\ closed s' = None.
+Proof. exact newcid_ok_dcid. Qed.
+Print Assumptions newcid_accepted_dcid.
 
-(* ... i.e. q repeats a sequence number that was already abandoned; no other operation raises. *)
-Theorem consume_empty_repeats_retired_thm : forall c l s q r n, reach c l s false ->
-  fst (recv_newcid s q r n) = OExnIndex -> In q (pend s) \/ In q (outs s) \/ In q (ackd s).
-Proof. exact consume_empty_repeats_retired. Qed.
-Print Assumptions consume_empty_repeats_retired_thm.
-
-Theorem only_newcid_raises_thm : forall s o, is_exn (fst (step s o)) = true -> exists q r n, o = RecvNewCid q r n.
-Proof. exact only_newcid_raises. Qed.
-Print Assumptions only_newcid_raises_thm.
-
-(* REFUTED as stated (candidate finding F1): a reachable, not closing state whose current destination ID -- the one
-   the next packet is sent to -- is below the processed retire_prior_to, although its retirement is queued. *)
-Theorem dcid_not_retired_refuted :
-  exists s x, reach true 8 s x /\ closed s = None /\ x = true /\
-    cur s < rpt s /\ fst (fst (fst (send s))) < rpt s /\ In (cur s) (pend s).
-Proof. exact dcid_not_retired_refuted_l. Qed.
-Print Assumptions dcid_not_retired_refuted.
+(* the history that used to pop an empty list (F1) now closes the connection with PROTOCOL_VIOLATION *)
+Theorem no_cid_left_closes_thm : forall s q r n d, closed s = None -> pkt s = Some d ->
+  (n =? 0) || (n >? CONNECTION_ID_MAX_SIZE) = false -> r <= q ->
+  cur s < r -> (forall a, In a (avail s) -> a < r) -> In q (seen s) ->
+  fst (recv_newcid s q r n) = OQErr E_PROTOCOL_VIOLATION /\
+  closed (snd (recv_newcid s q r n)) = Some E_PROTOCOL_VIOLATION.
+Proof. exact no_cid_left_closes. Qed.
+Print Assumptions no_cid_left_closes_thm.
 
 (* peer_ids_bounded: unless the connection is closing, current + spare peer IDs never exceed the advertised limit;
    a NEW_CONNECTION_ID that is accepted leaves at most min(4 * limit, MAX_PENDING_RETIRES) retirements pending, and
    one that would leave more IDs than the limit is answered with a connection error. *)
-Theorem peer_ids_bounded : forall c l s x, reach c l s x -> closed s = None ->
+Theorem peer_ids_bounded : forall c l s, reach c l s -> closed s = None ->
   1 + Zlen (avail s) <= LOCAL_ACTIVE_CID_LIMIT.
 Proof. exact peer_ids_bounded_l. Qed.
 Print Assumptions peer_ids_bounded.
@@ -65,7 +55,7 @@ Print Assumptions newcid_over_limit_is_error_thm.
 
 (* issued_bounded + retired_replaced: after the handshake the endpoint always has exactly min(8, peer limit) host
    IDs (so never more than the peer allows, and a retired one is replaced within the same frame handler) ... *)
-Theorem issued_bounded : forall c l s x, 1 <= l -> reach c l s x ->
+Theorem issued_bounded : forall c l s, 1 <= l -> reach c l s ->
   Zlen (hosts s) = Z.min REPLENISH_CAP l /\ Zlen (hosts s) <= l.
 Proof. exact issued_bounded_l. Qed.
 Print Assumptions issued_bounded.
@@ -82,17 +72,18 @@ Theorem issued_accepted : forall s h, closed s = None -> In h (hosts s) -> fst (
 Proof. exact issued_accepted_l. Qed.
 Print Assumptions issued_accepted.
 
-Theorem retired_not_held : forall c l s x q, 1 <= l -> reach c l s x ->
+Theorem retired_not_held : forall c l s q, 1 <= l -> reach c l s ->
   fst (step s (RecvRetire q)) = OOk -> has_host q (hosts (snd (step s (RecvRetire q)))) = false.
 Proof. exact retired_not_accepted. Qed.
 Print Assumptions retired_not_held.
 
-(* retirement_announced, PARTIAL: every sequence number the endpoint ADOPTED is the current one, spare, pending
-   retirement, in an outstanding RETIRE frame, or acknowledged; LOST re-queues; datagrams_to_send writes all. *)
-Theorem retirement_announced_partial : forall c l s x q, reach c l s x -> In q (seen s) ->
+(* retirement_announced: EVERY sequence number received in a well-formed NEW_CONNECTION_ID frame (also one that
+   arrives below the retire_prior_to already in force, F2) is the current one, spare, pending retirement, in an
+   outstanding RETIRE frame, or acknowledged; LOST re-queues; datagrams_to_send writes all pending. *)
+Theorem retirement_announced : forall c l s q, reach c l s -> In q (recvd s) ->
   q = cur s \/ In q (avail s) \/ In q (pend s) \/ In q (outs s) \/ In q (ackd s).
-Proof. exact retirement_accounted. Qed.
-Print Assumptions retirement_announced_partial.
+Proof. exact retirement_announced_l. Qed.
+Print Assumptions retirement_announced.
 
 Theorem lost_retire_requeued : forall s q, In q (pend (retire_delivery s q false)).
 Proof. exact lost_requeued. Qed.
@@ -103,30 +94,16 @@ Theorem pending_retires_written : forall s, closed s = None ->
 Proof. exact pending_all_written. Qed.
 Print Assumptions pending_retires_written.
 
-(* REFUTED for every RECEIVED sequence number (candidate finding F2): NEW_CONNECTION_ID(seq 1) arriving after
-   retire_prior_to = 2 was processed is dropped silently -- never retired (RFC 9000 5.1.2 requires RETIRE). *)
-Theorem retirement_announced_refuted :
-  exists s q, reach true 8 s false /\ closed s = None /\ In q (recvd s) /\ q < rpt s /\
-    q <> cur s /\ ~ In q (avail s) /\ ~ In q (pend s) /\ ~ In q (outs s) /\ ~ In q (ackd s).
-Proof. exact retirement_announced_refuted_l. Qed.
-Print Assumptions retirement_announced_refuted.
+(* ConnectionIdRetired only after ConnectionIdIssued (or for the initial ID, which the server registers itself):
+   the routing table of aioquic.asyncio.server never meets an unknown ID (F3) ... *)
+Theorem retired_after_issued : forall c l s q, 1 <= l -> reach c l s -> In q (retiredev s) -> In q (issued s).
+Proof. exact retired_after_issued_l. Qed.
+Print Assumptions retired_after_issued.
 
-(* REFUTED (candidate finding F3): the peer can retire a host ID whose NEW_CONNECTION_ID was never written; the
-   endpoint emits ConnectionIdRetired for an ID it never announced with ConnectionIdIssued. *)
-Theorem retired_event_without_issued_refuted :
-  exists s q, reach false 8 s false /\ closed s = None /\ In q (retiredev s) /\ ~ In q (issued s).
-Proof. exact retired_event_without_issued_l. Qed.
-Print Assumptions retired_event_without_issued_refuted.
-
-(* F1 needs a misbehaving peer: [reachH c l s x H] (proofs/CidP.v) is [reach] restricted to peers that never send two
-   NEW_CONNECTION_ID frames with the same sequence number and different retire_prior_to (retransmissions are
-   verbatim copies, RFC 9000 19.15).  For such peers no operation ever raises, hence dcid_not_retired holds
-   unconditionally. *)
-Theorem verbatim_peer_never_raises : forall c l s x H, reachH c l s x H -> x = false.
-Proof. exact verbatim_reach_no_exn. Qed.
-Print Assumptions verbatim_peer_never_raises.
-
-Theorem dcid_not_retired_verbatim_peer : forall c l s x H, reachH c l s x H ->
-  rpt s <= cur s /\ Forall (fun q => rpt s <= q) (avail s) /\ rpt s <= fst (fst (fst (send s))).
-Proof. exact dcid_not_retired_verbatim. Qed.
-Print Assumptions dcid_not_retired_verbatim_peer.
+(* ... because RETIRE_CONNECTION_ID for a host ID whose NEW_CONNECTION_ID was never written is a connection error
+   that leaves the host IDs untouched. *)
+Theorem retire_never_sent_is_error_thm : forall s q d h, closed s = None -> pkt s = Some d ->
+  In h (hosts s) -> h_seq h = q -> h_sent h = false -> hsent s < q ->
+  fst (recv_retire s q) = OQErr E_PROTOCOL_VIOLATION /\ hosts (snd (recv_retire s q)) = hosts s.
+Proof. exact retire_never_sent_is_error. Qed.
+Print Assumptions retire_never_sent_is_error_thm.
